@@ -46,6 +46,45 @@ fn viol(class: &str, idx: usize, detail: String) -> Violation {
     }
 }
 
+
+/// compare what an update credited to a position with its exact share accumulated in the shadow ledger
+#[allow(clippy::too_many_arguments)]
+fn judge(k: &Pubkey, pre: &Position, post: &Position, sh: &Shadow, name: &str, idx: usize, cov: &mut Coverage, out: &mut Vec<Violation>) {
+        for (side, c, e) in [("A", post.fee_owed_a.wrapping_sub(pre.fee_owed_a), &sh.e_a), ("B", post.fee_owed_b.wrapping_sub(pre.fee_owed_b), &sh.e_b)] {
+            let cb = BigUint::from(c);
+            let fl = e.floor();
+            cov.eval(format!("{}|{}|earned={}|steps={}|L={}", name, side, !e.is_zero(), sh.steps.min(5), (128 - pre.liquidity.leading_zeros()) / 16));
+            if cb > fl {
+                out.push(viol(
+                    "credited_more_than_share",
+                    idx,
+                    format!("position {} ({}..{}, L={}) was credited {} of token {} by {} but its exact pro-rata share of in-range LP fees since the last update is {} (over {} steps)",
+                        k, pre.lower, pre.upper, pre.liquidity, c, side, name, fl, sh.steps),
+                ));
+                continue;
+            }
+            // lower bound unless the documented overflow carve-out applies
+            let slack = (BigUint::from(sh.steps) * BigUint::from(pre.liquidity) >> 64usize) + BigUint::from(2u32);
+            let carve_out = &fl + &slack >= (BigUint::one() << 64usize);
+            if carve_out {
+                cov.probe("overflow_carve_out");
+                continue;
+            }
+            if &cb + &slack < fl {
+                out.push(viol(
+                    "credited_less_than_share",
+                    idx,
+                    format!("position {} ({}..{}, L={}) was credited {} of token {} by {} but its exact share is {} and rounding explains at most {} (over {} steps)",
+                        k, pre.lower, pre.upper, pre.liquidity, c, side, name, fl, slack, sh.steps),
+                ));
+            } else if !fl.is_zero() && out.is_empty() {
+                cov.probe("nonzero_fee_credit_checked");
+                cov.sample(json!({"position": k.to_string(), "range": [pre.lower, pre.upper], "liquidity": pre.liquidity.to_string(), "token": side,
+                    "credited": c, "exact_share_floor": fl.to_string(), "steps": sh.steps, "by": name}));
+            }
+        }
+}
+
 impl C07 {
     pub fn new() -> C07 {
         C07::default()
@@ -136,44 +175,63 @@ impl C07 {
                     }
                     let sh = self.shadow.remove(&k).unwrap_or_else(Shadow::new);
                     let name = crate::wpix::decode(v.ix).map(|c| c.name()).unwrap_or("?");
-                    for (side, c, e) in [("A", post.fee_owed_a.wrapping_sub(pre.fee_owed_a), &sh.e_a), ("B", post.fee_owed_b.wrapping_sub(pre.fee_owed_b), &sh.e_b)] {
-                        let cb = BigUint::from(c);
-                        let fl = e.floor();
-                        cov.eval(format!("{}|{}|earned={}|steps={}|L={}", name, side, !e.is_zero(), sh.steps.min(5), (128 - pre.liquidity.leading_zeros()) / 16));
-                        if cb > fl {
-                            out.push(viol(
-                                "credited_more_than_share",
-                                idx,
-                                format!("position {} ({}..{}, L={}) was credited {} of token {} by {} but its exact pro-rata share of in-range LP fees since the last update is {} (over {} steps)",
-                                    k, pre.lower, pre.upper, pre.liquidity, c, side, name, fl, sh.steps),
-                            ));
-                            continue;
-                        }
-                        // lower bound unless the documented overflow carve-out applies
-                        let slack = (BigUint::from(sh.steps) * BigUint::from(pre.liquidity) >> 64usize) + BigUint::from(2u32);
-                        let carve_out = &fl + &slack >= (BigUint::one() << 64usize);
-                        if carve_out {
-                            cov.probe("overflow_carve_out");
-                            continue;
-                        }
-                        if &cb + &slack < fl {
-                            out.push(viol(
-                                "credited_less_than_share",
-                                idx,
-                                format!("position {} ({}..{}, L={}) was credited {} of token {} by {} but its exact share is {} and rounding explains at most {} (over {} steps)",
-                                    k, pre.lower, pre.upper, pre.liquidity, c, side, name, fl, slack, sh.steps),
-                            ));
-                        } else if !fl.is_zero() && out.is_empty() {
-                            cov.probe("nonzero_fee_credit_checked");
-                            cov.sample(json!({"position": k.to_string(), "range": [pre.lower, pre.upper], "liquidity": pre.liquidity.to_string(), "token": side,
-                                "credited": c, "exact_share_floor": fl.to_string(), "steps": sh.steps, "by": name}));
-                        }
-                    }
+                    judge(&k, &pre, &post, &sh, name, idx, cov, out);
                     self.shadow.insert(k, Shadow::new());
                 }
                 _ => {}
             }
         }
+    }
+}
+
+impl C07 {
+    /// Active probe on a copy of the ledger: settle the fees of every funded position with the Anchor
+    /// `update_fees_and_rewards` - it must succeed (a position whose fees can no longer be settled earns nothing)
+    /// and credit the position's exact share. The shadow ledger is not consumed (the copy is discarded).
+    fn settle_all(&mut self, l: &crate::rt::Ledger, idx: usize, cov: &mut Coverage, out: &mut Vec<Violation>) {
+        let saved_clock = crate::rt::with_ctx(|c| c.clock);
+        for (wk, pool) in decode::pools(l) {
+            if self.unattributable.contains(&wk) {
+                continue;
+            }
+            for (k, pos) in decode::positions_of_pool(l, &wk) {
+                if pos.liquidity == 0 {
+                    continue;
+                }
+                let Some(sh) = self.shadow.get(&k).cloned() else { continue };
+                let ta = |t: i32| crate::ix::pda_tick_array(&wk, crate::gen::ta_start(t, pool.tick_spacing));
+                let ixn = crate::ix::update_fees_and_rewards(&wk, &k, &ta(pos.lower), &ta(pos.upper));
+                // never before the pool's last reward update (clock back-step faults would make the call fail for that reason)
+                crate::rt::with_ctx(|c| {
+                    c.clock = saved_clock;
+                    if (c.clock.unix_timestamp as i128) < pool.reward_last_updated_timestamp as i128 {
+                        c.clock.unix_timestamp = pool.reward_last_updated_timestamp as i64;
+                    }
+                });
+                let mut f = l.clone();
+                let r = crate::rt::exec_tx_simple(&mut f, &crate::rt::Tx { ixs: vec![ixn] });
+                cov.probe("settlement_probes");
+                if !r.ok {
+                    let code = r.ix_outcomes.last().map(|o| o.code).unwrap_or(0);
+                    out.push(viol(
+                        "position_cannot_be_settled",
+                        idx,
+                        format!("update_fees_and_rewards of position {} ({}..{}, L={}) fails with code {:#x}: its fees can no longer be settled", k, pos.lower, pos.upper, pos.liquidity, code),
+                    ));
+                    break;
+                }
+                if let Some(post) = f.data(&k).and_then(decode::position) {
+                    judge(&k, &pos, &post, &sh, "update_fees_and_rewards (probe)", idx, cov, out);
+                }
+                if !out.is_empty() {
+                    break;
+                }
+            }
+            if !out.is_empty() {
+                break;
+            }
+        }
+        crate::rt::with_ctx(|c| c.clock = saved_clock);
     }
 }
 
@@ -191,6 +249,14 @@ impl Monitor for C07 {
             }
         }
         let _ = BigUint::zero();
+        if out.is_empty() && ev.out.ok && ev.salt % 24 == 5 {
+            self.settle_all(ev.post, ev.idx, cov, &mut out);
+        }
+        out
+    }
+    fn end_of_run(&mut self, l: &crate::rt::Ledger, cov: &mut Coverage) -> Vec<Violation> {
+        let mut out = Vec::new();
+        self.settle_all(l, usize::MAX, cov, &mut out);
         out
     }
     fn on_patch(&mut self, _idx: usize, _pre: &crate::rt::Ledger, _post: &crate::rt::Ledger, cov: &mut Coverage) {
